@@ -7,6 +7,8 @@ returned, and which tasks' callbacks ended during the operation.
     section (after a final Wait) every task ever passed to Add has been handed to the callback;
   * Wait covers prior adds:  when a `Wait` returns, every task whose `Add` had returned before that
     `Wait` was called has had its callback end;
+  * nothing blocks for ever: at the end of a section (all callbacks and holds released, final Wait issued) every
+    `Add` and every `Wait` has returned — a lost hand-over shows up as `Add`/`Wait` parked for good;
   * a panicking callback loses only its own batch: the tasks of every other batch still reach the
     callback (same final multiset equation; the harness records a batch before it panics).
 -/
@@ -25,8 +27,11 @@ structure Mon where
 inductive Call | add (w : Nat) (x : Task) | wait (w : Nat) | other
   deriving Repr
 
-/-- one observed line: the call issued (if any), who is idle afterwards, which callbacks ended -/
-def Mon.step (m : Mon) (call : Call) (idle : Nat → Bool) (nf : List Task) : Mon × List String :=
+/-- one observed line: the call issued (if any), who is idle afterwards, which callbacks ended; `endsAt w` =
+the callbacks of this line that had ended when the `Wait` of caller `w` returned (all of them if the harness
+gave no order) -/
+def Mon.step (m : Mon) (call : Call) (idle : Nat → Bool) (nf : List Task)
+    (endsAt : Nat → List Task := fun _ => nf) : Mon × List String :=
   let dupMsgs := nf.filterMap fun x =>
     if m.fin.contains x || decide (nf.count x > 1) then some s!"task {x} handed to the callback twice"
     else if !(m.issued.contains x) && (match call with | .add _ y => y != x | _ => true) then
@@ -38,7 +43,7 @@ def Mon.step (m : Mon) (call : Call) (idle : Nat → Bool) (nf : List Task) : Mo
     | .other => m
   let done := m1.pending.filter fun p => idle p.1
   let waitMsgs := (m1.waits.filter fun p => idle p.1).flatMap fun p =>
-    (p.2.filter fun x => ¬ fin.contains x).map fun x =>
+    (p.2.filter fun x => ¬ (m.fin ++ endsAt p.1).contains x).map fun x =>
       s!"Wait of caller {p.1} returned before the callback of task {x} ended (its Add had returned before the Wait)"
   ({ m1 with fin := fin, returned := m1.returned ++ done.map (·.2),
              pending := m1.pending.filter fun p => ¬ idle p.1,
@@ -47,6 +52,14 @@ def Mon.step (m : Mon) (call : Call) (idle : Nat → Bool) (nf : List Task) : Mo
 /-- end of a section: every added task has been executed exactly once -/
 def Mon.final (m : Mon) (all : List Task) : List String :=
   (m.issued.filter fun x => all.count x ≠ 1).map fun x =>
-    s!"task {x} was handed to the callback {all.count x} times by the end (added once)"
+    if all.count x = 0 then s!"task {x} accepted by Add was never executed (not handed to the callback by the end of the final Wait)"
+    else s!"task {x} was handed to the callback {all.count x} times by the end (added once)"
+
+/-- end of a section, after every callback and every hold was released and a final `Wait` was issued by caller
+`drainer`: a caller that is still inside `Add` / `Wait` will never return (`cls` = where it is parked) -/
+def Mon.stuckAtEnd (m : Mon) (cls : Nat → String) (drainer : Nat) : List String :=
+  (m.pending.map fun p => s!"Add({p.2}) of caller {p.1} never returns: parked at '{cls p.1}' although nothing is left to wait for") ++
+  (m.waits.map fun p => s!"Wait never returns: caller {p.1} parked at '{cls p.1}' although every callback has ended") ++
+  (if cls drainer ≠ "idle" then [s!"Wait never returns: the final Wait (caller {drainer}) is parked at '{cls drainer}' although every callback has ended"] else [])
 
 end GoZero.C11.Spec
